@@ -60,8 +60,8 @@ impl Property for C10 {
         let per = match (tier, suite.slow()) {
             (Tier::Quick, false) => 20,
             (Tier::Quick, true) => 4,
-            (Tier::Thorough, false) => 400,
-            (Tier::Thorough, true) => 60,
+            (Tier::Thorough, false) => 1200,
+            (Tier::Thorough, true) => 150,
         };
         // strata: key source x procedure
         (0..4).map(|s| (s, per)).collect()
